@@ -741,7 +741,7 @@ class MSSQLQueryBuilder(FetchNextAndOffsetRowsQueryBuilder):
 
     def _top_sql(self) -> str:
         _top_statement: str = ""
-        if self._top:
+        if self._top is not None:
             _top_statement = f"TOP ({self._top}) "
             if self._top_percent:
                 _top_statement = f"{_top_statement}PERCENT "
